@@ -192,10 +192,12 @@ PROPS["C02"] = {
         {"name": "TestModel", "quick": {"shards": 4, "checks": 3000}, "thorough": {"shards": 6, "checks": 40000}},
         {"name": "TestMutants", "quick": {"shards": 6, "checks": 15000}, "thorough": {"shards": 6, "checks": 300000}},
         {"name": "TestBuiltins", "quick": {"shards": 4, "checks": 10000}, "thorough": {"shards": 4, "checks": 200000}},
+        {"name": "TestBorderline", "quick": {"shards": 4, "checks": 4000}, "thorough": {"shards": 6, "checks": 60000}},
     ],
     "rule": "cases: model programs / corpus mutants (1-3 token edits, generated input lines) / single built-in calls. Non-trivial = model "
             "program with an any-wrap, a typed empty literal or a panicking outcome; mutant that differs from its seed and is accepted; "
-            "built-in call with at least one argument (distinct by built-in and argument class tuple). Distinct by source text resp. class tuple.",
+            "built-in call with at least one argument (distinct by built-in and argument class tuple); borderline program (typed contexts filled "
+            "with same/related/unrelated-typed expressions, stores through selector chains) that the parser accepts. Distinct by source text resp. class tuple.",
     "assumptions": ["fuel: 100000 yields / 20000 effects per run; runs that exhaust it count as 'stopped'"],
 }
 
